@@ -5,12 +5,28 @@
    str or int keys in any insertion order, objects of any classes whose __qualname__ is not a rank string (different classes sharing a
    __qualname__ included: the class uid orders them), and all nestings).  [tbl] is the type-order table regenerated from the current base.py. *)
 From PG Require Import Common.Tactics Gen.TypeOrder Model.Compare
-  Proofs.CompareOrder Proofs.CompareLink Proofs.CompareLaws Proofs.CompareHash Proofs.CompareInstance.
+  Gen.CompareDispatch Proofs.CompareOrder Proofs.CompareLink Proofs.CompareLaws Proofs.CompareHash Proofs.CompareDispatch
+  Proofs.CompareInstance.
 From Coq Require Import Sorting.Sorted Sorting.Permutation.
 
 Theorem C06_table_ok : ranks_ok tbl = true.
 Proof. exact generated_table_ok. Qed.
 Print Assumptions C06_table_ok.
+
+(* The model's eq / lt are the interpretation of the branch order regenerated from base.eq / base.lt: the first branch
+   of the source order whose guard holds for the operands' kinds, and that branch's action. *)
+Theorem C06_eq_dispatch : forall n a b,
+  eq_f (S n) a b = eaction (eq_first eq_branches (kind_of a) (kind_of b)) n a b.
+Proof. exact (eq_dispatch eq_branches lt_branches generated_dispatch_ok). Qed.
+Print Assumptions C06_eq_dispatch.
+
+Theorem C06_lt_dispatch : forall n a b,
+  lt_f tbl (S n) a b =
+    if negb (same_type a b) && negb (str_eqb (rank tbl a) (rank tbl b))
+    then Ok (is_lt (str_cmp (rank tbl a) (rank tbl b)))
+    else laction tbl (lt_first lt_branches (kind_of a)) n a b.
+Proof. exact (lt_dispatch tbl eq_branches lt_branches generated_dispatch_ok). Qed.
+Print Assumptions C06_lt_dispatch.
 
 Theorem C06_eq_refl : forall f a, cmp_ok tbl f a = true -> eq a a = true.
 Proof. exact (eq_refl_law tbl generated_table_ok). Qed.
